@@ -9,25 +9,25 @@ claim("C01",
       TB + "Modelled rather than verified: fixedint 0.2.0 arithmetic, int(a/b) as truncated division on 32-bit operands, CPython int; ecall 2 float rendering is an opaque marker; CSR/FENCE/EBREAK execution excluded (as the property does).",
       "DESIGN.md §8 C01, §13")
 claim("C02",
-      "Lean 4 proof of the data path (split implementation = behavior(), every instruction, every state) and — in progress — of the control refinement by completion functions; cycle-accurate correspondence of the pipeline model with the real pipeline",
-      "Proved: split_agrees and its companions (Props/C02Split.lean, 10 theorems): for every supported instruction and state the five split functions run back to back equal single-cycle execution incl. faults (this is where the repaired JALR defect lived). The control half (pipeline = iterated split step: stalls, flushes, ecall drain; Props/C02.lean) is being proved by completion functions; until it is complete the stall/flush/drain behaviour is tied only by the cycle-accurate correspondence (every latch field, stall bookkeeping and counter after every cycle on generated programs) and searched by the single-cycle-vs-five-stage oracle on the real code. See DESIGN.md §13 for the exact state.",
-      TB + "As C01. PARTIAL: clauses (b) control refinement, (c) progress are not yet theorems (DESIGN.md §13).",
-      "DESIGN.md §8 C02, §13")
+      'Lean 4 proof: data path (split implementation = behavior() for every instruction and state) and control refinement by completion functions (pipeline with stalls, flushes, ecall drain = sequential execution), progress and termination; cycle-accurate correspondence of the pipeline model with the real pipeline',
+      '24 theorems. Props/C02Split.lean: split_agrees & companions (every supported instruction, every state, faults incl.). Props/C02.lean: shape invariant and its preservation, abs_step (one cycle = one sequential step on the completion-function abstraction or a stutter; interlock, ECALL drain, EX/MEM/WB flushes), pipe_refines_seq for every number of cycles, retire_order, final_state (registers, data memory SYSTEM incl. cache state and counters, output, exit code, retired/branch/procedure counts, pc, retire log = sequential trace, k = first sequential done step), fault_agrees and its converse fault_complete, younger_no_effect, pipe_progress (K = 5) and pipe_terminates. The composition of the two halves into one statement about Rv.singleStep is being added (DESIGN.md §13). Correspondence: full latch + stall-bookkeeping snapshot after every cycle on generated programs incl. dense data-flow chains; oracle: real single-cycle vs real five-stage.',
+      TB + "As C01. Hypotheses ProgOK (constructor-shaped instructions) and ICoh (instruction memory returns the stored instruction; C11 with an icache). After a fault the modes differ in instruction_count (proved: split_fault_instruction_count); the property claims registers/memory/output there.",
+      'DESIGN.md §8 C02, §13')
 claim("C03",
       "Lean 4 refinement proof: cached memory system = flat memory for every geometry, write policy and EVERY victim choice (policy-generic invariant proof); correspondence in forced-victim mode",
       "22 theorems (Props/C03.lean): init/preload/reset invariants, read_refines, write_refines (WB and WT), history_refines for arbitrary operation lists and adversarial policy states, crossing and out-of-range accesses rejected with stored values unchanged, and the proved counterexample for block bits >= 13 (known finding F6). Correspondence: random and (thorough) exhaustive small-scope histories with a full dump of cache and backing store after every operation; the model is fed the victim the real policy chose, so the tie does not depend on LRU/PLRU details.",
       TB + "Geometry hypothesis blkBits <= 12 is necessary (F6). List aliasing inside the Python cache is modelled by value.",
       "DESIGN.md §8 C03")
 claim("C04",
-      "Lean 4 theorems on the assembler model (Model.Asm: transcription of the pyparsing grammar + the five passes) — back-end theorems in progress; correspondence of the whole assembler incl. front end on grammar-derived and fault-injected texts; denotational oracle",
-      "Currently proved in Props/C04.lean: see the file (back-end theorems about expansion, label binding and displacements are being proved; the front-end round trip is covered under C14). The model of the complete assembler (tokenizer incl. pyparsing's longest-match and case-folding quirks, segmenting, data, pseudo expansion, labels, instantiation, every exception with its line) is tied to the real parser on rendered abstract programs under independent spelling choices and on a fault-injection stream; an independent denotation of the documented syntax is the oracle.",
-      TB + "pyparsing 3.3.2 is modelled for the grammar subset used (Model.PP), not verified. PARTIAL until the back-end theorems land (DESIGN.md §13). Known finding F8 (labels named nop/ecall/ebreak).",
-      "DESIGN.md §8 C04, §13")
+      'Lean 4 theorems on the assembler model (Model.Asm = transcription of the pyparsing grammar + the five passes): expansion laws, label binding, displacements, control transfer; correspondence of the whole assembler incl. front end on grammar-derived and fault-injected texts; denotational oracle',
+      '30 theorems (Props/C04.lean): expansion_in_context/uniform/identity, documented effect of nop/mv/li groups, label_denotes_next_instruction, inline_label_denotes_first_instruction (incl. expanding pseudo-instructions, bound once), label_at_end, instructions_in_order / instruction_address (instruction j at 4j), branch/jal displacement theorems for label, label+offset and numeric operands, *_transfers through singleStep. Front end: the printer->parser round trip is C14; spelling independence (ABI/xN, case, dec/hex/bin, operand forms, comments, blank lines) is tied by correspondence on independently spelled renderings of the same abstract program and checked by the oracle (asm-pair cases), not a theorem.',
+      TB + "pyparsing 3.3.2 is modelled for the grammar subset used (Model.PP), not verified. Spelling-independence of the front end is by correspondence + oracle only. Known finding F8 (labels named nop/ecall/ebreak).",
+      'DESIGN.md §8 C04, §13')
 claim("C05",
-      "Lean 4 theorems on the assembler model (layout recurrence, li/la arithmetic) — in progress; correspondence + execution oracle on all li boundary constants",
-      "Props/C05.lean (being extended): li/la value theorems for every constant, data layout recurrence and read-back through the C18 memory theorems. Correspondence: data images and variable addressing of rendered declaration lists, li constants over every low-12-bit boundary crossed with boundary high parts executed in the simulator, the help page's example program (read from /repo at run time).",
-      TB + "As C04. PARTIAL until the theorems land (DESIGN.md §13).",
-      "DESIGN.md §8 C05, §13")
+      'Lean 4 theorems on the assembler model: li/la value for every constant (omega on the hi/lo split), load/store by name, data layout recurrence with read-back through the C18 memory theorems, segment order; correspondence + execution oracle',
+      '33 theorems (Props/C05.lean): hiLo_recombines, li_value / la_value for EVERY constant and register, load_by_name, store_by_name, layout_ok / layout_addresses / layout_table / var_addr / layout_elements(_little_endian) / layout_string / layout_zero / layout_padding, segment_order_image, and the proved necessity of the fits-below-2^32 hypothesis (layout_needs_fit). Correspondence: data images and variable addressing of rendered declaration lists (incl. >2 KiB areas), all li boundary constants executed, the help page example read from /repo at run time.',
+      TB + "As C04.",
+      'DESIGN.md §8 C05, §13')
 claim("C06",
       "Lean 4 refinement proof: TOY model = fetch-execute reference machine over BitVec for runs of any length (IR invariant); correspondence on random self-modifying images",
       "5 theorems (Props/C06.lean): toy_refines / toy_step_refines / toy_refines_program (any number of steps, any memory image), two cycles per instruction, a store into the program area is seen by the next fetch. Thorough tier sweeps all 2^16 instruction words on boundary operands as model validation.",
@@ -64,20 +64,20 @@ claim("C12",
       TB + "blkBits <= 12 (F6).",
       "DESIGN.md §8 C12")
 claim("C13",
-      "Lean 4 theorems on the API models (Model.Sim, Model.Toy): done is a fixpoint, run = iterated step, reload = fresh load; correspondence on API histories with failing loads and calls after done",
-      "TOY part complete (Props/C13Toy.lean: done_stable, step_result, run_eq_iterate, empty_done, reload_fresh). RISC-V part (Props/C13.lean) being extended from done_step_noop to the full set incl. reload_fresh through the assembler model.",
-      TB + "PARTIAL for the RISC-V simulations until Props/C13.lean is complete (DESIGN.md §13).",
-      "DESIGN.md §8 C13, §13")
+      'Lean 4 theorems on the API models (Model.Sim, Model.Toy): done is a fixpoint, run = iterated step with fuel independence, reload = fresh load through the assembler model; correspondence on API histories with failing loads and calls after done',
+      '14 theorems (Props/C13.lean, Props/C13Toy.lean) for single-cycle, five-stage and TOY: done_stable (step, run, any call sequence), exit_done_stable, step_result, run_eq_iterate (characterisation, fuel independence), empty_done, reload_fresh (load (load s t1) t2 = load s t2 for any state, any list of earlier loads, successful or failing), load_frame.',
+      TB,
+      'DESIGN.md §8 C13')
 claim("C14",
-      "Lean 4 round-trip theorem printer -> parser on the models (in progress) + correspondence; oracle = real repr through the real assembler",
-      "The printed form (Model.Rv Instr.repr) and the parser model are both tied to the code; the round-trip theorem over all registers, immediates and addresses is being proved (Props/C14.lean). The oracle assembles the real printed form at the same address and compares fields, and checks listing fix-points.",
-      TB + "PARTIAL until the round-trip theorem lands (DESIGN.md §13).",
-      "DESIGN.md §8 C14, §13")
+      'Lean 4 round-trip theorem printer -> parser -> instantiation on the models for every instruction, register, immediate and address; listing fix-point through the whole load pipeline; correspondence; oracle = real repr through the real assembler',
+      '8 theorems (Props/C14.lean): numeral_roundtrip_dec/hex, register_roundtrip, repr_roundtrip and repr_roundtrip_tree (every Canon instruction except FENCE at every address: parseLine of the printed form instantiates to the same object; all 15 grammar alternatives and longest-match ties handled), canon_of_instantiate, listing_fixpoint (<= 4096 instructions, through sanitize/tokenize/segment/expand/labels/build). The former counterexample for label+odd offset was repaired in /repo (de456dd) — model and theorems are being updated to the repaired behaviour (DESIGN.md §13).',
+      TB + "Side conditions: csr number >= 0, |jal target| < 10^4300 (Python str/int digit limit is not modelled in intToDec).",
+      'DESIGN.md §8 C14, §13')
 claim("C15",
-      "Lean 4 theorems on the assembler and simulation models: error values are parser errors with an existing line number / the memory error, faults carry the faulting instruction (in progress) + correspondence on fault-injected texts, token soups and faulting programs",
-      "In the models every exception is a value and there is no constructor for an ill-typed failure, so classification is by construction; the quantitative theorems (line number within the text and line text equal to that line, totality of the fuel-using scanners, run-time faults carry address and instruction of the raising stage) are being proved (Props/C15.lean). The correspondence compares error class, line number and line text on every fault-injected text and soup, RISC-V and TOY.",
-      TB + "Termination and exception-freedom of pyparsing itself are assumptions. PARTIAL until the theorems land (DESIGN.md §13).",
-      "DESIGN.md §8 C15, §13")
+      'Lean 4 theorems on the assembler and simulation models: every load error is a parser error whose line number exists in the text and whose line text is that line (both assemblers), memory error origins, fuel-independence of the scanners (termination), run-time faults carry address and instruction of the raising stage, latch invariant; correspondence on fault-injected texts, soups and faulting programs',
+      '18 theorems (Props/C15.lean): sanitize_spec, riscv_error_line_exists, toy_error_line_exists, load_outcomes_riscv/toy (the model has no ill-typed failure; kinds enumerated), riscv_memory_error_origin, totality (fuel never runs out), single_fault_at_pc, runtime_error_typed_single/five, runtime_error_kind_single, latch invariant (every latch holds the instruction stored at its address) and runtime_error_instr_at_addr_five.',
+      TB + "Termination and exception-freedom of pyparsing itself are assumptions; in the model exceptions are values, so ill-typed failures are excluded by the correspondence, not by a theorem about Python.",
+      'DESIGN.md §8 C15')
 claim("C16",
       "Lean 4 erasure law over API histories + the cache-statistics lemma for display reads; the purity of the real getters is witnessed by the correspondence (model treats every inspection call as a no-op)",
       "3 theorems (Props/C16.lean): inspect_irrelevant, views_repeatable, display_read_keeps_statistics (with C09's reread_neutral). In a functional model purity of views holds by construction, so the weight is carried by the correspondence: all real getters (tables, statistics, SVG update lists, metrics text) are called in random interleavings while the model ignores them; any mutation shows in the next deep snapshot; the oracle compares the run with and without the calls.",
@@ -94,10 +94,10 @@ claim("C18",
       TB + "fixedint UIntN construction = reduction modulo 2^N; dict as finite map.",
       "DESIGN.md §8 C18")
 claim("C19",
-      "Lean 4 proofs: encode/decode round trips for all words (omega), TOY assembler placement theorems (in progress); correspondence of the TOY assembler model on grammar-derived and fault-injected texts, all 2^16 words in the thorough tier",
-      "Proved: decode_encode, encode_decode, decode_mod (all naturals). The assembler clauses (instruction i at address i, data downward from the top, label resolution, segment order, numerals) are being proved on Model.ToyAsm; meanwhile they are tied by correspondence and an independent denotation oracle.",
-      TB + "pyparsing modelled for the TOY grammar. PARTIAL for the assembler clauses until the theorems land (DESIGN.md §13).",
-      "DESIGN.md §8 C19, §13")
+      'Lean 4 proofs: encode/decode round trips for all words (omega); TOY assembler placement, label resolution, segment order, numerals, documented examples; correspondence of the TOY assembler model, all 2^16 words in the thorough tier',
+      '25 theorems (Props/C19.lean): decode_encode, encode_decode, decode_mod; instr_placement, instr_words_decode, load_is_loadImage, data_placement(_step,_load), labels_resolve, labels_are_instruction_addresses, segment_order*, segment_order_same_image, numerals_denote, numerals_accepted (all 60 case spellings x dec/hex), and the documented example programs evaluated in the model (help example result 1, sum.toy = 55).',
+      TB + "pyparsing modelled for the TOY grammar.",
+      'DESIGN.md §8 C19')
 claim("C20",
       "Lean 4 normal-form theorem for arbitrary call sequences (state = half^k), classification of rejected calls, no-ops when done; correspondence on legal and illegal interleavings",
       "7 theorems (Props/C20.lean): step_eq_halves, single_eq_due, inv_initial, call_classified, calls_normal_form, done_noop, three_styles_agree — state equality covers counters, markers and visualisation values.",
